@@ -1,47 +1,49 @@
 (* C18/Model.v — the language server's document store as a handler/schedule machine.
    Definitions only.
 
-   Source modelled: /repo/src/lsp/backend.rs  analyze_document (did_open, did_change),
-   collect_dependency_modules, did_close.  A handler is the list of its ATOMIC SEGMENTS: the code
-   between two consecutive `.await`s (a segment starts when the await it follows completes).
-   The awaits are exactly the gate points of src/lsp/verif_gate.rs (hook, cfg incan_verif):
+   Source modelled: /repo/src/lsp/backend.rs  analyze_document + finish_analysis (did_open,
+   did_change), collect_dependency_modules, did_close, take_ticket / is_latest.  A handler is the list
+   of its ATOMIC SEGMENTS: the code between two consecutive `.await`s (a segment starts when the await
+   it follows completes).  The awaits are exactly the gate points of src/lsp/verif_gate.rs (cfg
+   incan_verif):
 
-     analyze_document   lex/parse (sync, no shared effect)           = the Start step
-        error path      publish_err | client.publish(..).await       = PublishErr
-        ok path         deps_read   | documents.read().await         = DepsRead
-                        deps_publish| client.publish(dep..).await    = DepsPublish u' (one per import
-                                                                       that resolves to a readable file)
-                        (read guard dropped when collect_dependency_modules returns: end of the
-                         last deps segment, NOT an await)
-                        store       | documents.write().await;insert = Store   (unconditional today)
-                        publish     | client.publish(..).await       = Publish
-     did_close          close_lock  | documents.write().await;remove = CloseRemove (guard kept!)
-                        close_publish| client.publish(clear).await   = ClosePublish (guard dropped)
+     did_open/did_change  take_ticket; lex/parse (sync prefix)         = the Start step: ticket[uri] := own
+                                                                         arrival index, no other effect
+        ok path           deps_read   | documents.read().await         = DepsRead
+                          deps_publish| (dependency step)              = DepsPublish u' (one per import that
+                                        client.publish(dep..).await      resolves to a readable file; publishes
+                                                                         only if u' is NOT an open document)
+                          (read guard dropped when collect_dependency_modules returns: end of the
+                           last deps segment, NOT an await)
+        finish_analysis   store       | documents.write().await;       = Store  (text parses)  /  Guard (it does
+                                        is_latest? insert                not: nothing is inserted).  Not latest:
+                                                                         the handler ends here.  Guard kept!
+                          publish     | client.publish(..).await       = Publish (guard dropped)
+     did_close            close_lock  | documents.write().await;       = CloseRemove (same ticket test, guard kept)
+                                        is_latest? remove
+                          close_publish| client.publish(clear).await   = ClosePublish (guard dropped)
 
    An await is modelled as a possible suspension BEFORE its effect ("any await may suspend").
    Measured on the real server: `client.publish_diagnostics(..).await` is enqueue + flush on a
    futures mpsc channel of capacity 1; the enqueue never waits, the flush parks the handler whenever
    more than one message is queued, i.e. it really suspends AFTER the enqueue.  A run with
    suspend-after points is a run of this model in which each publish segment follows its predecessor
-   immediately and guards are released earlier, so the model over-approximates it (the stale store is
-   reachable on the unpatched server through these natural suspension points: checks/c18.py
-   NATURAL_STALE).
+   immediately and guards are released earlier, so the model over-approximates it.
 
    tokio's RwLock is modelled by its exclusion only (a segment that must take the lock is enabled
    only when it can); tokio's FIFO fairness removes schedules, never adds any, so the model
    over-approximates the real server.  tower-lsp: handlers start in arrival order, <= 4 in flight.
 
-   Two variants share every definition:
-     Faithful  the code as it is;
-     Repaired  the smallest change for which `converges` is provable (see Props.v):
-               (1) every handler takes a ticket in its sync prefix: ticket[uri] := own arrival index;
-               (2) the store/remove step is skipped (and the handler ends) unless ticket[uri] is still
-                   its own  — the "version guard", keyed by arrival rather than by the client's number;
-               (3) the handler keeps the write guard from the store to its publish (as did_close
-                   already does), so publishes are ordered like stores;
-               (4) a text that does not lex/parse is stored too (without AST) instead of being dropped;
-               (5) collect_dependency_modules no longer publishes for a dependency that is an open
-                   document (its own handler is the only publisher of its diagnostics). *)
+   History: before the repairs 4a5ca1b (arrival ticket, store/remove/publish skipped when stale, write
+   guard held from store to publish) and bdb7243 (no publication for a dependency that is an open
+   document) the store was unconditional and `converged` failed under overlapping handlers
+   (lsp-stale-store) and after analysing an importer (lsp-dep-republish).
+
+   Two variants share every definition except `of_note`:
+     Faithful  the code as it is: a text that does not lex/parse is published (under the same ticket
+               test and guard) but never stored — lsp-error-keeps-old, a known finding;
+     Repaired  such a text is stored too (without AST): the variant in which `converged` holds for
+               every history. *)
 From Coq Require Import ZArith List Bool Lia.
 Import ListNotations.
 Open Scope Z_scope.
@@ -61,7 +63,7 @@ Definition nuri (n : note) : uri := match n with Doc _ u _ _ => u | Close u => u
 Inductive variant := Faithful | Repaired.
 
 Inductive seg :=
-| PublishErr (u : uri) (v : Z) (t : text)
+| Guard (u : uri)
 | DepsRead
 | DepsPublish (u' : uri)
 | Store (u : uri) (v : Z) (t : text)
@@ -75,7 +77,7 @@ Definition of_note (vr : variant) (n : note) : list seg :=
   | Doc _ u v t =>
       if tok t then DepsRead :: map DepsPublish (timports t) ++ [Store u v t; Publish u v t]
       else match vr with
-           | Faithful => [PublishErr u v t]
+           | Faithful => [Guard u; Publish u v t]
            | Repaired => [Store u v t; Publish u v t]
            end
   | Close u => [CloseRemove u; ClosePublish u]
@@ -95,7 +97,7 @@ Record state := mkState {
   writer : option nat;                 (* handler holding the write guard *)
   started : nat;                       (* handlers 0..started-1 have started *)
   segs : nat -> list seg;              (* remaining segments; [] = not started or finished *)
-  ticket : uri -> option nat           (* Repaired only *)
+  ticket : uri -> option nat           (* arrival ticket: latest started handler per document *)
 }.
 
 Definition init : state :=
@@ -118,46 +120,45 @@ Definition dep_pub (st : state) (u' : uri) : pub :=
 Definition clear_pub (u : uri) : pub := mkPub u None SrcClear.
 
 (* handler k runs its next segment s (rest = what remains afterwards); None = not enabled *)
-Definition exec (vr : variant) (st : state) (k : nat) (s : seg) (rest : list seg) : option state :=
+Definition exec (st : state) (k : nat) (s : seg) (rest : list seg) : option state :=
   match s with
-  | PublishErr u v t =>
-      Some (mkState (docs st) (own_pub u v t :: pubs st) (readers st) (writer st) (started st)
-                    (updn (segs st) k rest) (ticket st))
   | DepsRead =>
       if no_writer st then
         Some (mkState (docs st) (pubs st) (if holds_read rest then k :: readers st else readers st)
                       (writer st) (started st) (updn (segs st) k rest) (ticket st))
       else None
   | DepsPublish u' =>
-      let ps := match vr, docs st u' with
-                | Repaired, Some _ => pubs st
-                | _, _ => dep_pub st u' :: pubs st
+      let ps := match docs st u' with
+                | Some _ => pubs st                     (* an open document: its own handler publishes *)
+                | None => dep_pub st u' :: pubs st
                 end in
       Some (mkState (docs st) ps
                     (if holds_read rest then readers st else remove Nat.eq_dec k (readers st))
                     (writer st) (started st) (updn (segs st) k rest) (ticket st))
   | Store u v t =>
       if lock_free st then
-        match vr with
-        | Faithful =>
-            Some (mkState (upd (docs st) u (Some (v, t))) (pubs st) (readers st) (writer st) (started st)
-                          (updn (segs st) k rest) (ticket st))
-        | Repaired =>
-            if has_ticket st u k then
-              Some (mkState (upd (docs st) u (Some (v, t))) (pubs st) (readers st) (Some k) (started st)
-                            (updn (segs st) k rest) (ticket st))
-            else
-              Some (mkState (docs st) (pubs st) (readers st) (writer st) (started st)
-                            (updn (segs st) k []) (ticket st))
-        end
+        if has_ticket st u k then
+          Some (mkState (upd (docs st) u (Some (v, t))) (pubs st) (readers st) (Some k) (started st)
+                        (updn (segs st) k rest) (ticket st))
+        else
+          Some (mkState (docs st) (pubs st) (readers st) (writer st) (started st)
+                        (updn (segs st) k []) (ticket st))
+      else None
+  | Guard u =>
+      if lock_free st then
+        if has_ticket st u k then
+          Some (mkState (docs st) (pubs st) (readers st) (Some k) (started st)
+                        (updn (segs st) k rest) (ticket st))
+        else
+          Some (mkState (docs st) (pubs st) (readers st) (writer st) (started st)
+                        (updn (segs st) k []) (ticket st))
       else None
   | Publish u v t =>
-      Some (mkState (docs st) (own_pub u v t :: pubs st) (readers st)
-                    (match vr with Faithful => writer st | Repaired => None end) (started st)
+      Some (mkState (docs st) (own_pub u v t :: pubs st) (readers st) None (started st)
                     (updn (segs st) k rest) (ticket st))
   | CloseRemove u =>
       if lock_free st then
-        if match vr with Faithful => true | Repaired => has_ticket st u k end then
+        if has_ticket st u k then
           Some (mkState (upd (docs st) u None) (pubs st) (readers st) (Some k) (started st)
                         (updn (segs st) k rest) (ticket st))
         else
@@ -169,11 +170,11 @@ Definition exec (vr : variant) (st : state) (k : nat) (s : seg) (rest : list seg
                     (updn (segs st) k rest) (ticket st))
   end.
 
-(* the start step: the sync prefix (lex+parse, no shared effect; Repaired: take the ticket) *)
+(* the start step: the sync prefix (take the ticket; lex+parse) *)
 Definition start (vr : variant) (st : state) (k : nat) (n : note) : state :=
   mkState (docs st) (pubs st) (readers st) (writer st) (S (started st))
           (updn (segs st) k (of_note vr n))
-          (match vr with Faithful => ticket st | Repaired => upd (ticket st) (nuri n) (Some k) end).
+          (upd (ticket st) (nuri n) (Some k)).
 
 Definition inflight (st : state) : nat :=
   length (filter (fun j => negb (is_nil (segs st j))) (seq 0 (started st))).
@@ -184,7 +185,7 @@ Definition step (vr : variant) (h : list note) (st : state) (k : nat) : option s
   if Nat.ltb k (started st) then
     match segs st k with
     | [] => None
-    | s :: rest => exec vr st k s rest
+    | s :: rest => exec st k s rest
     end
   else if Nat.eqb k (started st) && Nat.ltb (inflight st) 4 then
     match nth_error h k with
@@ -242,14 +243,16 @@ Definition memz (u : Z) (l : list Z) : bool := existsb (Z.eqb u) l.
 Definition known_syntax (h : list note) : bool :=
   existsb (fun u => match latest h u with Some (Doc _ _ _ t) => negb (tok t) | _ => false end) (uris h).
 
-(* lsp-dep-republish: a parsing text imports a document the client opens in this history *)
-Definition known_dep (h : list note) : bool :=
+(* FORMER classes (repaired by 4a5ca1b / bdb7243; kept only so that the check can say in which of
+   them a newly failing case would have fallen — they suppress nothing):
+   dep-republish: a parsing text imports a document the client opens in this history *)
+Definition former_dep (h : list note) : bool :=
   existsb (fun n => match n with
                     | Doc _ _ _ t => tok t && existsb (fun u' => memz u' (uris h)) (timports t)
                     | Close _ => false
                     end) h.
 
-(* lsp-stale-store: a handler starts while an earlier handler for the same document is in flight *)
+(* stale-store: a handler starts while an earlier handler for the same document is in flight *)
 Definition starts_overlap (h : list note) (st : state) (k : nat) : bool :=
   Nat.eqb k (started st) &&
   match nth_error h k with
@@ -264,7 +267,7 @@ Fixpoint overlap_from (vr : variant) (h : list note) (st : state) (sch : list na
   | k :: r => starts_overlap h st k ||
               match step vr h st k with Some st' => overlap_from vr h st' r | None => false end
   end.
-Definition known_overlap (h : list note) (sch : list nat) : bool := overlap_from Faithful h init sch.
+Definition former_overlap (h : list note) (sch : list nat) : bool := overlap_from Faithful h init sch.
 
 (* ------------------------------------------------------------------ rendering for the correspondence run *)
 
@@ -298,7 +301,5 @@ Definition render (vr : variant) (ws : list uri) (h : list note) (sch : list nat
   | (tr, None) => (0, 0, tr, [])
   end.
 
-(* the classes as predicates on a case (history, schedule) *)
-Definition Known_C18_stale_store (h : list note) (sch : list nat) : Prop := known_overlap h sch = true.
+(* the class as a predicate on a history *)
 Definition Known_C18_error_keeps_old (h : list note) : Prop := known_syntax h = true.
-Definition Known_C18_dep_republish (h : list note) : Prop := known_dep h = true.
